@@ -3,8 +3,32 @@
 -/
 import EG.Driver.Line
 import EG.Model.ThickLine
+import EG.Model.ThickPolyline
 namespace EG.Driver
 open EG
+
+/-- `n` points from the token list. -/
+private def takePts : Nat → Toks → List Pt × Toks
+  | 0, t => ([], t)
+  | n + 1, t =>
+    let (p, t) := t.pt
+    let (ps, t) := takePts n t
+    (p :: ps, t)
+
+/-- A rectangle list as a point list `tl, (w, h), tl, (w, h), ..` (digested like a point list). -/
+private def rectsAsPts (rs : List Rect) : List Pt :=
+  rs.flatMap (fun r => [r.tl, (⟨(r.size.w : Int), (r.size.h : Int)⟩ : Pt)])
+
+private def fmtPolyDraw : Joins.PolyDraw → String
+  | .nothing => "-"
+  | .drawIter pts => "di:" ++ fmtPtsDigest pts
+  | .fillSolids [] => "-"        -- no call at all: the log is empty
+  | .fillSolids rs => "fs:" ++ fmtPtsDigest (rectsAsPts rs)
+
+private def stuckOr (o : Option String) : String :=
+  match o with
+  | some s => s
+  | none => "stuck"
 
 def handleThick (stream : String) (t : Toks) : Option String :=
   match stream with
@@ -22,6 +46,17 @@ def handleThick (stream : String) (t : Toks) : Option String :=
     match Thick.styledBoundingBox ⟨s, e⟩ w with
     | some r => some (fmtRect r)
     | none => some "stuck"
+  | "thick.polyline" =>
+    let (tr, t) := t.pt
+    let (n, t) := t.nat
+    let (vs, t) := takePts n t
+    let (w, _) := t.nat
+    let pl : Polyline := ⟨tr, vs⟩
+    some (stuckOr (do
+      let bb ← Joins.styledBoundingBox pl w
+      let dr ← Joins.drawStyled pl w
+      let px ← Joins.pixels pl w
+      pure s!"bb={fmtRect bb} draw={fmtPolyDraw dr} px={fmtPtsDigest px}"))
   | _ => none
 
 end EG.Driver
